@@ -351,18 +351,20 @@ def check_substates(impl, ref, backend):
             if idx not in (a, c) or abs(xs[k] - ref.mu[idx]) > tol:
                 bad.append(("state(modes)-label-vs-data", f"backend.state(modes=[{a}, {c}]) labels position {k} as {nm} but it holds <x> = {xs[k]:.4f} (own data of the two modes: {ref.mu[a]:.4f}, {ref.mu[c]:.4f})"))
                 return bad
+    # an invalid index alone, and mixed with an active mode on either side
     for d in [i for i, al in enumerate(ref.alive) if not al][:1] + [len(ref.alive)]:
-        try:
-            with warnings.catch_warnings():
-                warnings.simplefilter("ignore")
-                st = b.state(modes=[d])
-            bad.append(("state(modes)-accepts-invalid", f"backend.state(modes=[{d}]) returned a state ({list(st.mode_names.values()) if isinstance(st.mode_names, dict) else st.mode_names}) although mode {d} is {'deleted' if d < len(ref.alive) else 'unknown'} (active modes {act})"))
-            return bad
-        except ERRS:
-            pass
-        except Exception as e:  # noqa: BLE001
-            bad.append(("state(modes)-wrong-exception", f"backend.state(modes=[{d}]) raised {type(e).__name__}: {str(e)[:80]}"))
-            return bad
+        for sel in [[d]] + ([[act[0], d], [d, act[-1]]] if act else []):
+            try:
+                with warnings.catch_warnings():
+                    warnings.simplefilter("ignore")
+                    st = b.state(modes=sel)
+                bad.append(("state(modes)-accepts-invalid" + ("" if len(sel) == 1 else "|mixed-with-active"), f"backend.state(modes={sel}) returned a state ({list(st.mode_names.values()) if isinstance(st.mode_names, dict) else st.mode_names}) although mode {d} is {'deleted' if d < len(ref.alive) else 'unknown'} (active modes {act})"))
+                return bad
+            except ERRS:
+                pass
+            except Exception as e:  # noqa: BLE001
+                bad.append(("state(modes)-wrong-exception", f"backend.state(modes={sel}) raised {type(e).__name__}: {str(e)[:80]}"))
+                return bad
     return bad
 
 
